@@ -138,7 +138,7 @@ impl Prop for C04 {
                         Err(c) => cx.violation(&format!("{}|read-panic|{}|{}", na, c.site(), c.norm_msg()), json!({"panic": c.msg, "at": format!("{}:{}", c.file, c.line), "text": text.chars().take(4000).collect::<String>()})),
                         Ok(Err(e)) => cx.violation(&format!("{}|read-error|{}", na, lef_err_class(&e)), json!({"error": format!("{:?}", e).chars().take(400).collect::<String>(), "bytes": text.len(), "text": text.chars().take(4000).collect::<String>()})),
                         Ok(Ok(got)) => {
-                            if got != g.lib {
+                            if !lef_same(&got, &g.lib) {
                                 let (class, path) = lef_diff(&g.lib, &got);
                                 cx.violation(&format!("{}|mismatch|{}", na, class), json!({"at": path, "bytes": text.len(), "text": text.chars().take(4000).collect::<String>()}));
                             } else {
